@@ -13,6 +13,6 @@ LEVEL_NOTE = "necessary conditions only; the DPOR completeness theorem is not de
 
 
 def run(ctx):
-    g_dpor.run_all(ctx, ["V1", "V2", "V3", "T1", "T2", "T3", "T4", "T5"])
+    g_dpor.run_all(ctx, ["V1", "V2", "V3", "T1", "T2", "T3", "T4", "T5", "T6"])
     from . import g_state
     g_state.S9(ctx)
